@@ -712,9 +712,6 @@ Proof.
   - intros E. apply Hd. rewrite E, E2. reflexivity.
 Qed.
 
-Lemma pair_eq_dec (x y : account * commodity) : {x = y} + {x <> y}.
-Proof. decide equality; apply list_eq_dec; try apply list_eq_dec; apply Z.eq_dec. Qed.
-
 (* soundness of the executable clauses: what the check accepts satisfies the statements *)
 Lemma balanced_b_sound ps : balanced_b ps = true -> balanced ps.
 Proof.
@@ -729,8 +726,8 @@ Lemma conserve_b_sound bs ts :
   conserve_b bs ts = true -> forall a c, (booked_txns a c ts == booked_src a c bs)%Q.
 Proof.
   unfold conserve_b, booked_txns. intros H a c. rewrite forallb_forall in H.
-  destruct (in_dec pair_eq_dec (a, c) (cells_of_postings (all_postings ts) ++ cells_of_bookings bs)) as [Hin|Hout].
-  - specialize (H _ Hin). cbn [fst snd] in H. apply Qeq_bool_iff in H.
+  destruct (in_dec cell_eq_dec (a, c) (cells_of_postings (all_postings ts) ++ cells_of_bookings bs)) as [Hin|Hout].
+  - apply (nodup_In cell_eq_dec) in Hin. specialize (H _ Hin). cbn [fst snd] in H. apply Qeq_bool_iff in H.
     rewrite booked_r_eq, booked_src_r_eq in H. exact H.
   - rewrite booked_absent, booked_src_absent; [reflexivity| |].
     + intros b Hb. split; intros E; apply Hout; apply in_or_app; right; unfold cells_of_bookings;
@@ -743,9 +740,9 @@ Lemma accrual_zero_b_sound acc ts :
   accrual_zero_b acc ts = true -> forall c, (booked_txns acc c ts == 0)%Q.
 Proof.
   unfold accrual_zero_b, booked_txns. intros H c. rewrite forallb_forall in H.
-  destruct (in_dec (list_eq_dec Z.eq_dec) c (map p_com (all_postings ts))) as [Hin|Hout].
-  - apply in_map_iff in Hin. destruct Hin as [p [Hp Hin]]. specialize (H p Hin).
-    apply Qeq_bool_iff in H. rewrite booked_r_eq, Hp in H. exact H.
+  destruct (in_dec str_eq_dec c (map p_com (all_postings ts))) as [Hin|Hout].
+  - apply (nodup_In str_eq_dec) in Hin. specialize (H c Hin).
+    apply Qeq_bool_iff in H. rewrite booked_r_eq in H. exact H.
   - apply booked_absent. intros p Hin E. apply Hout. apply in_map_iff. exists p.
     split; [injection E as _ E; exact E|exact Hin].
 Qed.
